@@ -32,10 +32,32 @@ import (
 	"github.com/enfein/mieru/v3/pkg/stderror"
 )
 
+// errorValue holds an error like atomic.Value does, but the goroutines of a UDP loop
+// may report errors of different concrete types (e.g. io.EOF and *net.OpError).
+// atomic.Value panics when values of different types are stored, so box them.
+type errorValue struct {
+	v atomic.Value
+}
+
+type boxedError struct {
+	err error
+}
+
+func (e *errorValue) Store(err error) {
+	e.v.Store(boxedError{err: err})
+}
+
+func (e *errorValue) Load() any {
+	if b, ok := e.v.Load().(boxedError); ok {
+		return b.err
+	}
+	return nil
+}
+
 // RunUDPAssociateLoop exchanges socks5 UDP packets between a socks5 proxy client and a mieru proxy server,
 // the proxy server is connected via the PacketOverStreamTunnel.
 func RunUDPAssociateLoop(udpConn *net.UDPConn, conn *apicommon.PacketOverStreamTunnel, resolver apicommon.DNSResolver) error {
-	var udpErr atomic.Value
+	var udpErr errorValue
 
 	// addrMap maps the UDPAddr in string to the bytes in UDP associate header.
 	var addrMap sync.Map
@@ -129,7 +151,7 @@ func RunUDPAssociateLoop(udpConn *net.UDPConn, conn *apicommon.PacketOverStreamT
 // RunUDPForwardingLoop exchanges socks5 UDP packets between a mieru proxy client and a socks5 proxy server,
 // the proxy client is connected via the PacketOverStreamTunnel.
 func RunUDPForwardingLoop(udpConn *net.UDPConn, conn *apicommon.PacketOverStreamTunnel, downstreamAddr *net.UDPAddr, ctrlConn net.Conn) error {
-	var udpErr atomic.Value
+	var udpErr errorValue
 
 	var wg sync.WaitGroup
 	wg.Add(3)
